@@ -30,10 +30,12 @@ def run(ck):
     ck.assumptions += ["serde_json produces valid JSON for every input it accepts", "field names/values reach the visitor as C10 establishes"]
     ck.rule("C14.R1", "only the serializer writes record content; one terminating newline; every collected field serialised", floor=6)
     ck.rule("C14.R2", "later record calls merge into the stored object (owned keys); replaced only on success", floor=6)
+    ck.rule("C14.R4", "a later record updates the span's stored fields under one write lock (read-merge-store is atomic)", floor=1)
     ck.rule("C14.R3", "span list is root to leaf", floor=1)
     r1(ck, F)
     r2(ck, F)
     r3(ck, F)
+    r4(ck, F)
 
 
 def r1(ck, F):
@@ -240,3 +242,41 @@ def r3(ck, F):
         ck.ok("C14.R3", "span list iterates scope().from_root()", fn=sc.path)
     else:
         ck.bad("C14.R3", "span list iterates scope().from_root()", where(sc.raw["sp"]), "from_root %d, scope %d, rev %d" % (len(fr), len(scope), len(rev)), fn=sc.path)
+
+
+def r4(ck, F):
+    """`Span::record` may run on several threads for one span. The fmt subscriber keeps the span's formatted fields in its
+    extensions; merging new values is read (stored text) - merge - store. It loses a concurrently recorded field unless
+    the whole sequence happens under one acquisition of the extensions *write* lock."""
+    b = F.impl_method("tracing_subscriber::subscribe::Subscribe", "tracing_subscriber::fmt::fmt_subscriber::Subscriber", "on_record")
+    if not ck.anchor("C14.R4", "fmt Subscriber::on_record", b):
+        return
+    live = [(bb, t) for bb, t in b.calls() if not b.blocks[bb].get("cleanup")]
+    locks = [(bb, t) for bb, t in live if t["callee"].get("path", "").startswith("tracing_subscriber::registry::SpanRef::") and t["callee"].get("method") in ("extensions", "extensions_mut")]
+    key = "fmt Subscriber::on_record takes the span's extensions write lock once, for the whole update"
+    if len(locks) == 1 and locks[0][1]["callee"]["method"] == "extensions_mut":
+        ck.ok("C14.R4", key, fn=b.path)
+    else:
+        ck.bad("C14.R4", key, where(b.raw["sp"]), "lock acquisitions: %s -- with more than one (or a read lock first) two threads recording on the same span "
+               "both merge into the same old text and the later store drops the other's field" % [t["callee"]["method"] for bb, t in locks], fn=b.path)
+        return
+    gbb = locks[0][0]
+
+    def through_guard(op):
+        o = b.origin(op)
+        return o[0] == "call" and o[1] == gbb
+    adds = [(bb, t) for bb, t in live if t["callee"].get("method") == "add_fields"]
+    key = "fmt Subscriber::on_record merges into the stored fields in place, or stores the merge through the same guard"
+    ok = bool(adds)
+    why = "no add_fields call"
+    for bb, t in adds:
+        o = b.origin(t["argv"][1])
+        inplace = o[0] == "call" and o[2]["callee"].get("method") in ("get_mut", "get_or_insert_with", "get_or_insert") and through_guard(o[2]["argv"][0])
+        stored = any(u["callee"].get("method") in ("insert", "replace") and "ExtensionsMut" in u["callee"].get("path", "") and through_guard(u["argv"][0]) and b.dominates(bb, ub)
+                     for ub, u in live)
+        if not (inplace or stored):
+            ok, why = False, "add_fields works on %s and its result is not stored through the write guard" % (str(o[2]["callee"].get("path")) if o[0] == "call" else o[0])
+    if ok:
+        ck.ok("C14.R4", key, fn=b.path)
+    else:
+        ck.bad("C14.R4", key, where(b.raw["sp"]), why, fn=b.path)
